@@ -40,7 +40,7 @@ def run(F, rep, tier):
                        "specification's binding levels, token numbering lexer<->tables, rule->action->AST node and operand order. "
                        "Nothing is executed; 'programs' = (state, look-ahead) cells compared.")
     rep.assumptions += ["bison's yyparse semantics for the packed tables (as re-implemented by Parser::parse)",
-                        "lexing of literals, white space and comments is not decided"]
+                        "lexing of literals and the exact extent of a comment are not decided (R06.10 decides that skipping is iterated)"]
     r1 = rep.rule("R06.1", "committed LALR tables == LALR(1)(feel.y): state bijection, every action/goto cell")
     r2 = rep.rule("R06.2", "operator pairs: table action at every precedence conflict agrees with the FEEL specification's binding levels")
     r3 = rep.rule("R06.3", "token numbering: TokenType discriminants, YY_TRANSLATE, YY_R1/YY_R2, YY_FINAL agree with feel.y")
@@ -57,6 +57,7 @@ def run(F, rep, tier):
     driver_guard_rule(F, rep, T)
     driver_decision_rule(F, rep, T)
     lexer_mode_rule(F, rep)
+    skipper_rule(F, rep)
     char_class_rule(F, rep)
     binary_action_rule(F, rep)
     a = lalr.build_lalr(g)
@@ -807,3 +808,82 @@ def binary_action_rule(F, rep):
         else:
             rep.ok(rid, key, "one push of one node built from the two pops")
     rep.floor(rid, "binary operator actions", n, 7)
+
+
+def skipper_rule(F, rep):
+    """R06.10 ('extra white space, line breaks and comments between tokens do not change the tree'): in front of a token any number of white-space runs and
+    comments may stand, so the skipping that precedes the token dispatch must be *iterated*: the comment skipper is called inside a loop (of its caller, or of a
+    caller further up towards next_token), or it loops itself around its test for a comment start.  A loop-free composition of k calls skips at most k comments -
+    the layout with k + 1 adjacent comments is a counterexample by itself, so this is positive evidence, not a heuristic.  A `for` over a fixed range is a bounded
+    composition as well; it is reported UNDECIDED (the bound is not evaluated)."""
+    rid = rep.rule("R06.10", "white space and comments in front of a token are skipped by an iteration (any number of comments), not by a loop-free sequence of calls")
+    LEX = "dmntk_feel_parser::lexer::Lexer::"
+    meths = {n: h for n, h in F.hir.items() if n.startswith(LEX) and h.get("kind") == "method"}
+
+    def slash_star(h):
+        """does the body test for a comment start: a character pattern / comparison with '/' next to one with '*'"""
+        lits = {x.get("v") for x, _ in find_hir(h["body"], lambda x: x.get("k") == "Lit" and x.get("lit") == "char")}
+        return "/" in lits and "*" in lits
+    skippers = [n for n, h in meths.items() if n.endswith("::consume_comment")] or [n for n, h in meths.items() if slash_star(h) and "comment" in n.rsplit("::", 1)[-1]]
+    if not skippers:
+        rep.missing_anchor(rid, "the comment skipper of the lexer (consume_comment)")
+        return
+    skipper = skippers[0]
+
+    def loops_above(parents):
+        return [p_ for p_ in parents if p_.get("k") == "Loop"]
+
+    def call_sites(target):
+        out = []
+        for n, h in meths.items():
+            if n == target:
+                continue
+            for c, parents in find_hir(h["body"], lambda x: x.get("k") in ("MethodCall", "Call") and x.get("callee") == target):
+                out.append((n, c, parents))
+        return out
+    # the skipper loops itself around its comment-start test?
+    own = meths[skipper]
+    tests = find_hir(own["body"], lambda x: (x.get("k") == "Lit" and x.get("lit") == "char" and x.get("v") == "/") or
+                     (x.get("k") == "Lit" and x.get("lit") == "char" and x.get("v") == "/" ))
+    first_test_in_loop = False
+    pats = find_hir(own["body"], lambda x: x.get("k") in ("Match", "If"))
+    if pats:
+        outer = pats[0]
+        first_test_in_loop = bool(loops_above(outer[1]))
+    verdicts = []
+    seen = set()
+
+    def up(target, depth):
+        """is some call chain towards next_token iterated?  returns list of (chain text, 'loop' | 'for' | 'straight')"""
+        res = []
+        sites = call_sites(target)
+        if not sites:
+            return [("%s is not called" % target.rsplit("::", 1)[-1], "straight")]
+        for n, c, parents in sites:
+            ls = loops_above(parents)
+            chain = "%s:%s" % (n.rsplit("::", 1)[-1], c.get("l"))
+            if any(l_.get("src") in ("While", "Loop") for l_ in ls):
+                res.append((chain, "loop"))
+            elif ls:
+                res.append((chain, "for"))
+            elif n.endswith("::next_token") or depth >= 3 or n in seen:
+                res.append((chain, "straight"))
+            else:
+                seen.add(n)
+                for ch, v in up(n, depth + 1):
+                    res.append((chain + " <- " + ch, v))
+        return res
+    if first_test_in_loop:
+        rep.ok(rid, "skipper", "%s iterates around its own test for a comment start" % skipper.rsplit("::", 1)[-1])
+        return
+    chains = up(skipper, 0)
+    straight = [c for c, v in chains if v == "straight"]
+    fors = [c for c, v in chains if v == "for"]
+    where = "%s:%s" % (own["file"], own["line"])
+    if straight:
+        rep.violation(rid, "loop-free", "the comment skipper is reached by a loop-free sequence of calls (%s): only %d comment(s) between two tokens are skipped, the next one is lexed as "
+                      "tokens (`1 /* a */ /* b */ + 2` is a syntax error)" % ("; ".join(straight), len(straight)), where)
+    elif fors:
+        rep.undecided(rid, "bounded", "the comment skipper is called in a `for` loop (%s): the number of skipped comments is bounded by the range" % "; ".join(fors))
+    else:
+        rep.ok(rid, "skipper", "every call of the comment skipper is inside a loop of its caller chain: %s" % "; ".join(c for c, _ in chains))
